@@ -100,6 +100,11 @@ def scenarios(tier, seed):
         for heur in ["H1", "H2", "H3", "H4", "H5", "H6", "order", "order_rev"]:
             for inplace in (False, True):
                 add(family="mn/triangulate", kind="tri", graph=gname, edges=edges, heur=heur, inplace=inplace, card_pat=k % 3)
+    # a non-chordal part next to a node without edges (a valid Markov network: the isolated variable carries a unary factor)
+    for heur in ["H1", "H3", "H6", "order"]:
+        for inplace in (False, True):
+            add(family="mn/triangulate", kind="tri", graph="cycle4+isolated", edges=[["a", "b"], ["b", "c"], ["c", "d"], ["d", "a"]], isolated=["e"], heur=heur,
+                inplace=inplace, card_pat=k % 3)
     return out
 
 
@@ -258,11 +263,14 @@ def run_tri(desc, M):
     from pgmpy.models import MarkovNetwork
     M.declare([])
     edges = [tuple(e) for e in desc["edges"]]
-    nodes = sorted({v for e in edges for v in e})
+    nodes = sorted({v for e in edges for v in e} | set(desc.get("isolated", [])))
     card = {v: [2, 3, 2, 2, 3][(i + desc["card_pat"]) % 5] for i, v in enumerate(nodes)}
     mn = MarkovNetwork(edges)
     for a, b in edges:
         mn.add_factors(DiscreteFactor([a, b], [card[a], card[b]], np.ones(card[a] * card[b])))
+    for v in desc.get("isolated", []):
+        mn.add_node(v)
+        mn.add_factors(DiscreteFactor([v], [card[v]], np.ones(card[v])))
     heur = desc["heur"]
     kw = {}
     if heur == "order":
